@@ -400,5 +400,9 @@ def run(ctx):
             raise AnalysisBroken("macro %s not found / not a constant" % nm)
     ne = r8extract.check(ctx, ctx.need_fn(wprog, "extract_reqs"), "R8.extract", mac("NC_REQ_TO_FREE"), mac("NC_REQ_NULL"))
     ctx.require(ne >= 500, "R8.extract: only %d cells evaluated" % ne)
+    from rules import r8interleave
+    ctx.rule("R8.interleave", "wait_getput hands the requests on sorted, with the interleaved flag exact (bounded)")
+    ni = r8interleave.check(ctx, ctx.need_fn(wprog, "wait_getput"), "R8.interleave")
+    ctx.require(ni >= 1000, "R8.interleave: only %d request lists evaluated" % ni)
     ctx.rule("R5.growby", "sorted queue insertion: growth, element shift and nonlead_off adjustment use one amount")
     check_growby(ctx, prog)
